@@ -24,6 +24,10 @@ class Ghost:
         self.n = 0
         self.cutoff_hits = []   # round-trip lemmas that took the library's 1e-6 cut-off branch on this path
         self.roundtrip = True   # apply the C01 round-trip lemmas exp(log R) / log(exp v)
+        self.body_exp = False   # unregistered arguments: execute the real body instead of returning a fresh result
+        self.body_log = False
+        self.real_depth = 0     # > 0: inside a real body, callee stubs are bypassed
+        self.log6 = []          # (T cells, twist-matrix cells)
 
     def fresh_unit_quat(self, ctx, alg, tag):
         self.n += 1
@@ -82,6 +86,13 @@ def linked(ctx, alg, R, v):
     return None
 
 
+def is_log_of(ctx, alg, R, v):
+    """is v registered as MatrixLog3 of R on this path?"""
+    gh = ghost_of(ctx)
+    rc, vc = _cells(R), _cells(v)
+    return any(_same(alg, vc, v0) and _same(alg, rc, R0) for (R0, v0) in gh.log)
+
+
 def register_exp(ctx, v, R):
     ghost_of(ctx).exp.append((_cells(v), npx.S(_np.array(R, dtype=object))))
 
@@ -96,7 +107,7 @@ def make_stubs(mr, counters=None):
 
     def MatrixExp3(so3mat):
         ctx = T.ctx()
-        if ctx is None or not npx._has_sym(so3mat):
+        if ctx is None or not npx._has_sym(so3mat) or ghost_of(ctx).real_depth > 0:
             return mr.__dict__['__real_MatrixExp3'](so3mat)
         alg = ctx.ex.alg
         counters['MatrixExp3'] = counters.get('MatrixExp3', 0) + 1
@@ -132,6 +143,14 @@ def make_stubs(mr, counters=None):
                         return I.copy()
                     gh.exp.append((v, X))
                     return X.copy()
+        if gh.body_exp:
+            gh.real_depth += 1
+            try:
+                R = mr.__dict__['__real_MatrixExp3'](m)
+            finally:
+                gh.real_depth -= 1
+            gh.exp.append((v, npx.S(_np.array(R, dtype=object))))
+            return R
         e = gh.fresh_unit_quat(ctx, alg, 'e')
         R = S.Rq(e)
         gh.exp.append((v, R))
@@ -140,7 +159,7 @@ def make_stubs(mr, counters=None):
 
     def MatrixLog3(Rm):
         ctx = T.ctx()
-        if ctx is None or not npx._has_sym(Rm):
+        if ctx is None or not npx._has_sym(Rm) or ghost_of(ctx).real_depth > 0:
             return mr.__dict__['__real_MatrixLog3'](Rm)
         alg = ctx.ex.alg
         counters['MatrixLog3'] = counters.get('MatrixLog3', 0) + 1
@@ -169,13 +188,73 @@ def make_stubs(mr, counters=None):
                         gh.log.append((rc, tuple(v0)))
                         return S.hat3(list(v0))
                     break
+        if gh.body_log:
+            gh.real_depth += 1
+            try:
+                L = mr.__dict__['__real_MatrixLog3'](Rm)
+            finally:
+                gh.real_depth -= 1
+            gh.log.append((rc, _cells(S.vee3(L))))
+            return L
         gh.n += 1
         v = tuple(SR.var('l%d_%d' % (gh.n, i)) for i in range(3))
         gh.log.append((rc, v))
         ctx.note_assumption('callee contract (proved in C01): MatrixLog3(R) = hat(l) with ExpLib3(l) = R to 5e-6, |l| <= pi')
         return S.hat3(list(v))
 
-    return {'MatrixExp3': MatrixExp3, 'MatrixLog3': MatrixLog3}
+    def MatrixLog6(Tm):
+        ctx = T.ctx()
+        if ctx is None or not npx._has_sym(Tm) or ghost_of(ctx).real_depth > 0:
+            return mr.__dict__['__real_MatrixLog6'](Tm)
+        alg = ctx.ex.alg
+        Tm = npx.asarray(Tm)
+        Rm = Tm[0:3, 0:3]
+        RtR = npx.dot(Rm.T, Rm)
+        for i in range(3):
+            for j in range(i, 3):
+                ctx.oblige('requires of MatrixLog6: R^T R = I [%d,%d]' % (i, j), T.eq(RtR[i, j], 1 if i == j else 0),
+                           kind='callee-requires', pair=(SR.lift(RtR[i, j]), SR.const(1 if i == j else 0)))
+        d = S.det3(Rm)
+        ctx.oblige('requires of MatrixLog6: det R = 1', T.eq(d, 1), kind='callee-requires', pair=(SR.lift(d), T.ONE))
+        for j in range(4):
+            ctx.oblige('requires of MatrixLog6: last row 0 0 0 1', T.eq(Tm[3, j], 1 if j == 3 else 0), kind='callee-requires')
+        tc = _cells(Tm)
+        gh = ghost_of(ctx)
+        for (T0, L0) in gh.log6:
+            if _same(alg, tc, T0):
+                return npx.S(_np.array(L0, dtype=object).reshape(4, 4)).copy()
+        gh.n += 1
+        V = [SR.var('tw%d_%d' % (gh.n, i)) for i in range(6)]
+        L = S.hat6(V)
+        gh.log6.append((tc, _cells(L)))
+        ctx.note_assumption('callee contract (proved in C01): MatrixLog6(T) = L with MatrixExp6(L) = T (5e-6; exact outside the cut-off)')
+        return L.copy()
+
+    def MatrixExp6(se3mat):
+        ctx = T.ctx()
+        if ctx is None or not npx._has_sym(se3mat) or ghost_of(ctx).real_depth > 0:
+            return mr.__dict__['__real_MatrixExp6'](se3mat)
+        alg = ctx.ex.alg
+        gh = ghost_of(ctx)
+        m = npx.asarray(se3mat)
+        mc = _cells(m)
+        if gh.roundtrip:
+            for (T0, L0) in gh.log6:
+                if _same(alg, mc, L0):
+                    X = npx.S(_np.array(T0, dtype=object).reshape(4, 4))
+                    th = S.norm([m[2, 1], m[0, 2], m[1, 0]])
+                    if th < S.CUTOFF:
+                        if th > 0:
+                            gh.cutoff_hits.append('exp6(log6 T) with 0 < |rotation part of log6 T| < 1e-6')
+                        break
+                    return X.copy()
+        gh.real_depth += 1
+        try:
+            return mr.__dict__['__real_MatrixExp6'](m)
+        finally:
+            gh.real_depth -= 1
+
+    return {'MatrixExp3': MatrixExp3, 'MatrixLog3': MatrixLog3, 'MatrixLog6': MatrixLog6, 'MatrixExp6': MatrixExp6}
 
 
 def install(modname='basic_robotics.modern_robotics_numba.modern_high_performance'):
@@ -185,6 +264,8 @@ def install(modname='basic_robotics.modern_robotics_numba.modern_high_performanc
         return mr
     mr.__dict__['__real_MatrixExp3'] = mr.MatrixExp3
     mr.__dict__['__real_MatrixLog3'] = mr.MatrixLog3
+    mr.__dict__['__real_MatrixExp6'] = mr.MatrixExp6
+    mr.__dict__['__real_MatrixLog6'] = mr.MatrixLog6
     counters = {}
     for k, f in make_stubs(mr, counters).items():
         setattr(mr, k, f)
